@@ -1820,6 +1820,156 @@ func runC5Wait(p *Prog, o *obls, la *lockAnalysis) {
 		})
 	}
 	_ = n
+	// C5 (through a call): a repository function that can block in a select is called with a lock held that the
+	// function itself does not know about (it is exported, other callers hold nothing). The call is judged like the
+	// select: it is a wait that only its counterparts can end — the goroutine that serves the channel of a send case,
+	// the function that closes the channel of a receive case. If every case's way out needs the lock held at the call
+	// (the serving goroutine is only ever started by a function that takes that lock first; the closing function
+	// takes it), the caller waits for something that waits for the caller.
+	closersOf := map[string][]*ssa.Function{}
+	startersOf := map[*ssa.Function][]ssa.Instruction{}
+	for _, fn := range p.Funcs {
+		instrsOf(fn, func(in ssa.Instruction) {
+			switch x := in.(type) {
+			case *ssa.Call:
+				if builtinName(&x.Call) == "close" && len(x.Call.Args) == 1 {
+					for _, id := range idents(x.Call.Args[0]) {
+						closersOf[id] = append(closersOf[id], fn)
+					}
+				}
+			case *ssa.Go:
+				for _, c := range p.Callees(x) {
+					startersOf[c] = append(startersOf[c], in)
+					// go func() { …; s.loop() }(): the functions the literal calls directly run on that goroutine too
+					if c.Parent() == fn {
+						instrsOf(c, func(in2 ssa.Instruction) {
+							if ci, ok := in2.(ssa.CallInstruction); ok {
+								if sc := ci.Common().StaticCallee(); sc != nil && p.InUniverse(sc) {
+									startersOf[sc] = append(startersOf[sc], in)
+								}
+							}
+						})
+					}
+				}
+			}
+		})
+	}
+	for _, fn := range p.Funcs {
+		if fn.Blocks == nil || !p.InUniverse(fn) || la.info[fn] == nil {
+			continue
+		}
+		instrsOf(fn, func(in ssa.Instruction) {
+			call, ok := in.(*ssa.Call)
+			if !ok {
+				return
+			}
+			g := call.Call.StaticCallee()
+			if g == nil || !p.InUniverse(g) || g.Blocks == nil || g == fn {
+				return
+			}
+			if _, isLockOp := lockOpOf(&call.Call); isLockOp {
+				return
+			}
+			held := la.info[fn].before[in]
+			if len(held) == 0 {
+				return
+			}
+			// locks the callee does not already know to be held on entry
+			extra := lockset{}
+			for k, v := range held {
+				if la.entry[g][k] == 0 {
+					extra[k] = v
+				}
+			}
+			if len(extra) == 0 {
+				return
+			}
+			instrsOf(g, func(in2 ssa.Instruction) {
+				sel, ok := in2.(*ssa.Select)
+				if !ok || !sel.Blocking || len(sel.States) == 0 {
+					return
+				}
+				var reasons []string
+				for _, st := range sel.States {
+					blocked := ""
+					if st.Dir == types.SendOnly {
+						// served by receivers; each must be unable to run without a held lock
+						var recvs []*ssa.Function
+						for _, u := range usersOf(st.Chan) {
+							if !u.send && u.fn != g {
+								recvs = append(recvs, u.fn)
+							}
+						}
+						if len(recvs) == 0 {
+							return
+						}
+						all := true
+						for _, r := range recvs {
+							needs := false
+							for h := range extra {
+								if _, ok := la.acquiresOf(r, map[*ssa.Function]bool{})[h]; ok {
+									needs = true
+								}
+								starts := startersOf[r]
+								if len(starts) > 0 {
+									every := true
+									for _, sIn := range starts {
+										sf := sIn.Parent()
+										if la.info[sf] == nil || la.info[sf].before[sIn][h] == 0 {
+											every = false
+										}
+									}
+									if every {
+										needs = true
+										blocked = fmt.Sprintf("%s, which receives from %s, is only started with %s held (%s)", funcKey(r), chanOf(st.Chan), h, p.instrPos(starts[0]))
+									}
+								}
+							}
+							if !needs {
+								all = false
+							}
+						}
+						if !all {
+							return
+						}
+						if blocked == "" {
+							blocked = "every receiver of " + chanOf(st.Chan) + " can need a held lock"
+						}
+					} else {
+						// a receive: ended by a send or by close; only the lifecycle form (never sent to, closed somewhere)
+						var closers []*ssa.Function
+						for _, id := range idents(st.Chan) {
+							closers = append(closers, closersOf[id]...)
+						}
+						sent := false
+						for _, u := range usersOf(st.Chan) {
+							if u.send {
+								sent = true
+							}
+						}
+						if sent || len(closers) == 0 {
+							return
+						}
+						for _, c := range closers {
+							needs := false
+							for h := range extra {
+								if w, ok := la.acquiresOf(c, map[*ssa.Function]bool{})[h]; ok {
+									needs = true
+									blocked = fmt.Sprintf("%s, which closes %s, takes %s (%s)", funcKey(c), chanOf(st.Chan), h, w)
+								}
+							}
+							if !needs {
+								return
+							}
+						}
+					}
+					reasons = append(reasons, blocked)
+				}
+				construct := fmt.Sprintf("wait-through:%s@%s", funcKey(g), funcKey(fn))
+				o.bad("C5", construct, p.instrPos(in), fmt.Sprintf("%s is called while holding %s and can block in the select at %s; every case of that select waits for something that needs the held lock: %s", funcKey(g), extra, p.instrPos(sel), strings.Join(reasons, "; ")))
+			})
+		})
+	}
 }
 
 // deferredBefore: the deferred unlock of lock k is registered before instruction d in program order (so it runs after d's
